@@ -1,12 +1,12 @@
 SPECIFICATION Spec
 CONSTANTS
   Design = "grader_bookkeeping"
-  Kind = "blocked"
+  Kind = "importer"
   MaxSteps = 2
   Inject = "base"
   Handback = "per_run"
   NextRun = "plain"
-  ImportThread = "inline"
+  ImportThread = "nested"
   defaultInitValue = defaultInitValue
 INVARIANT ExcIsTimeout
 INVARIANT ExcStable
@@ -14,5 +14,5 @@ INVARIANT OneRuntimeFb
 INVARIANT StacksEmpty
 INVARIANT NoCrash
 INVARIANT NextRunClean
-CONSTRAINT ExportSched
+INVARIANT NextExcNone
 CHECK_DEADLOCK FALSE
